@@ -36,11 +36,11 @@ def check_dirhashes(b, manifest, hist_root, fmts, ignored, tag):
 def order_scenario(tier, deep=False):
     def fn(b, sym):
         b.mkfile("R/f1.txt", 1)
-        if sym.flag("has_f2"):
+        if not deep and sym.flag("has_f2"):
             b.mkfile("R/f2.txt", 2)
         b.mkfile("R/d/f3.txt", 3)
         b.mkfile("R/d/f4.txt", sym.int("cid_f4", 3, 4))  # may equal f3's content
-        if sym.flag("has_z"):
+        if not deep and sym.flag("has_z"):
             b.mkdir("R/z")
         if deep:
             b.mkfile("R/d/e/f5.txt", 5)
@@ -115,7 +115,7 @@ def scenario(tier):
         r = b.run("create", root="R", h=hs, i=pats)
         m2 = b.manifests("R")[-1]
         check_dirhashes(b, m2, "R", fmts, ignored, "gen2 after %s" % mut)
-        if sym.flag("third_generation_adds_a_format"):
+        if [f for f in ["sha1", "md5"] if f not in fmts] and sym.flag("third_generation_adds_a_format"):
             extra = [f for f in ["sha1", "md5"] if f not in fmts][0]
             r = b.run("create", root="R", h=hs + [extra], i=pats)
             check_dirhashes(b, b.manifests("R")[-1], "R", fmts + [extra], ignored, "gen3 (format %s added) after %s" % (extra, mut))
@@ -143,7 +143,7 @@ def harnesses(tier):
                         "format": "md5|c4 (quick), each of the six (thorough), one per run"}, outside=out),
     ] + ([Harness("c07-order-deep", order_scenario(tier, deep=True), frontier=4, budget_s=2400, backend={"symbolic_order": True},
                   real_opts={"content_seeds": 48}, what="the same with a third directory level (d/e/{f5,f6}), md5, symbolic digest order",
-                  bounds={"tree": "root/{f1,f2?,d/{f3,f4,e/{f5,f6}},z/?}", "format": "md5"}, outside=out)] if tier != "quick" else []) + [
+                  bounds={"tree": "root/{f1,d/{f3,f4,e/{f5,f6}}}", "format": "md5"}, outside=out)] if tier != "quick" else []) + [
         Harness("c07-cmds", scenario(tier), frontier=5, budget_s=2400, real_opts={"content_seeds": 12},
                 what="create, verify -dh -co, in-place rename / edit, second create: recorded and printed values = definition over "
                      "exactly the non-ignored entries; rename keeps content hash and changes structure hash; edit changes content hash",
